@@ -215,6 +215,87 @@ func runChildOnce(line string, timeout time.Duration) string {
 	return "crash"
 }
 
+// runChildBatch runs several driver lines in ONE child (4 GiB address space). ok=false when the child died, ran out of
+// time or did not answer every line — the caller then runs the lines one by one to find the culprit.
+func runChildBatch(lines []string, timeout time.Duration) (res []string, ok bool) {
+	cmd := exec.Command("/bin/sh", "-c", "ulimit -v 4194304; exec \"$0\" -exec", os.Args[0])
+	cmd.Stdin = strings.NewReader(strings.Join(lines, "\n") + "\n")
+	cmd.Env = os.Environ()
+	var buf strings.Builder
+	cmd.Stdout = &buf
+	if err := cmd.Start(); err != nil {
+		panic(err)
+	}
+	var killed atomic.Bool
+	t := time.AfterFunc(timeout, func() { killed.Store(true); cmd.Process.Kill() })
+	err := cmd.Wait()
+	t.Stop()
+	if killed.Load() || err != nil {
+		return nil, false
+	}
+	for _, l := range strings.Split(strings.TrimRight(buf.String(), "\n"), "\n") {
+		i := strings.LastIndex(l, " => ")
+		if i < 0 {
+			return nil, false
+		}
+		res = append(res, strings.TrimSpace(l[i+4:]))
+	}
+	return res, len(res) == len(lines)
+}
+
+// isoBatch collects cases and runs them in child processes, 100 at a time; lines are written as `C06 iso <op> <args> => <res>`
+// (replaying such a line runs the op in a child of its own). After 8 cases that kill or block their child the generator stops.
+type isoBatch struct {
+	g       *G
+	pending [][]string
+	dead    int
+}
+
+func (b *isoBatch) add(op string, args ...string) {
+	for i, a := range args {
+		if a == "" {
+			args[i] = "-"
+		}
+	}
+	b.pending = append(b.pending, append([]string{op}, args...))
+	if len(b.pending) >= 100 {
+		b.flush()
+	}
+}
+
+func (b *isoBatch) flush() {
+	cases := b.pending
+	b.pending = nil
+	if len(cases) == 0 || b.dead >= 8 {
+		return
+	}
+	lines := make([]string, len(cases))
+	for i, c := range cases {
+		lines[i] = "C06 " + strings.Join(c, " ")
+	}
+	res, ok := runChildBatch(lines, 40*time.Second)
+	for i, c := range cases {
+		if b.dead >= 8 {
+			break
+		}
+		r := ""
+		if ok {
+			r = res[i]
+		} else {
+			r = runChild(lines[i], 4*time.Second)
+			if r == "crash" || r == "hang" {
+				b.dead++
+			}
+		}
+		if r == "" {
+			r = "-"
+		}
+		b.g.out.WriteString("C06 iso " + strings.Join(c, " ") + " => " + r + "\n")
+		b.g.N++
+	}
+	b.g.out.Flush()
+}
+
 // ---- recording relayed chain for the route op
 
 type recChain struct {
